@@ -269,7 +269,10 @@ def gen_atom(rng, fids):
     if c < 8:
         days = rng.choice([0, 1, 58, 59, 60, 365, 366, -1, -365, 2921573, -730485, 7000, -36525]) if rng.random() < 0.4 \
             else rng.randrange(-730485, 2921574)
-        return ("date", float(days * 86400))
+        # a third of the date literals carry a time of day (whole seconds): the reader prints the calendar day of the instant,
+        # DATE(y,m,d) - the time of day of a DATE_NODE is not shown (notes/C08.md) - and the literal must stay ONE operand
+        tod = rng.choice([0, 0, 43200, 1, 86399, rng.randrange(86400)])
+        return ("date", float(days * 86400 + tod))
     ra, ca = rng.random() < 0.3, rng.random() < 0.3
     return ("ref", rng.randrange(0, 40) if ra else rng.randrange(-5, 40), rng.randrange(0, 800) if ca else rng.randrange(-5, 60),
             ra, ca)
